@@ -352,9 +352,9 @@ def emit_case(case, out):
     parts.append("check_igmap %s %s %s %s (%s, %s, %s, %s) %s" % (exact, cm, raw, q, E.lst(ig["chr"], E.z), E.lst(ig["phy"], E.z),
                  E.lst(ig["gen"], _ext), igmeta, E.lst(out["igmap_spline_keys"], E.z)))
     s1, s2, q1, q2 = case["s1"], case["s2"], case["q1"], case["q2"]
-    parts.append("check_gdist_g %s %s None None None None None None %s %s %s %s" % (cm, raw, E.lst(out["g1"], _ext), E.lst(out["g1"], _fl),
+    parts.append("check_gdist_g %s %s %s None None None None None None %s %s %s %s" % (exact, cm, raw, E.lst(out["g1"], _ext), E.lst(out["g1"], _fl),
                  E.lst2(out["g2"], _ext), E.lst2(out["g2"], _fl)))
-    parts.append("check_gdist_g %s %s %s %s %s %s %s %s %s %s %s %s" % (cm, raw, _oz(s1[0]), _oz(s1[1]), _oz(s2[0]), _oz(s2[1]), _oz(s2[2]), _oz(s2[3]),
+    parts.append("check_gdist_g %s %s %s %s %s %s %s %s %s %s %s %s %s" % (exact, cm, raw, _oz(s1[0]), _oz(s1[1]), _oz(s2[0]), _oz(s2[1]), _oz(s2[2]), _oz(s2[3]),
                  E.lst(out["g1s"], _ext), E.lst(out["g1s"], _fl), E.lst2(out["g2s"], _ext), E.lst2(out["g2s"], _fl)))
     sq = _pairs(out["sq"])
     parts.append("check_gdist_p %s %s %s %s %s None None None None None None %s %s %s %s" % (exact, cm, raw, q, sq, E.lst(out["p1"], _ext), E.lst(out["p1"], _fl),
@@ -392,12 +392,12 @@ def _pred_mapfn(case, out):
         if x == 0.0 and y != 0.0: bad.append("mapfn(0) = %r != 0" % y)
         if math.isinf(x) and y != 0.5: bad.append("mapfn(inf) = %r != 0.5" % y)
         if not (0.0 <= y <= 0.5): bad.append("mapfn(%r) = %r outside [0, 0.5]" % (x, y))
-        if x > 0 and not math.isinf(x) and x > 1e-300 and not (y > 0.0): bad.append("mapfn(%r) = %r is not positive" % (x, y))
-        if not math.isinf(x) and x < 9.0 and not (y < 0.5): bad.append("mapfn(%r) = %r reaches 0.5 at a finite moderate distance" % (x, y))
+        if not math.isinf(x) and x >= 2.0 ** -50 and not (y > 0.0): bad.append("mapfn(%r) = %r is not positive" % (x, y))
+        if not math.isinf(x) and x < 8.0 and not (y < 0.5): bad.append("mapfn(%r) = %r reaches 0.5 at a finite moderate distance" % (x, y))
         if not _close(y, _mapfn_py(fn, x), 2.0 ** -44): bad.append("mapfn(%r) = %r differs from the %s formula %r" % (x, y, fn, _mapfn_py(fn, x)))
     for i in range(len(d) - 1):                       # d is sorted ascending
         if not (m[i] <= m[i + 1]): bad.append("mapfn not monotone between d=%r and d=%r" % (d[i], d[i + 1]))
-        if d[i + 1] - d[i] > 1e-6 and d[i + 1] < 8.0 and not (m[i] < m[i + 1]): bad.append("mapfn not strictly increasing between d=%r and d=%r" % (d[i], d[i + 1]))
+        if d[i + 1] - d[i] > 1e-6 and d[i + 1] < 3.0 and not (m[i] < m[i + 1]): bad.append("mapfn not strictly increasing between d=%r and d=%r" % (d[i], d[i + 1]))
     k = 2.0 if fn == "haldane" else 4.0
     for x, y in zip(d, im):
         if math.isinf(x):
